@@ -1,0 +1,51 @@
+//go:build verif
+
+package docker
+
+import (
+	"github.com/mutagen-io/mutagen/pkg/synchronization/core/ignore/docker/internal/third_party/patternmatcher"
+)
+
+// VerifMatcher wraps the vendored pattern matcher, which lives in an internal
+// package. Verification hook (add-only, build tag verif): wrappers only, no
+// behaviour change.
+type VerifMatcher struct {
+	m *patternmatcher.PatternMatcher
+}
+
+// VerifNewMatcher runs newValidatedPatternMatcher (the validation and
+// cleaning NewIgnorer performs) and wraps the result.
+func VerifNewMatcher(patterns []string) (*VerifMatcher, error) {
+	m, err := newValidatedPatternMatcher(patterns)
+	if err != nil {
+		return nil, err
+	}
+	return &VerifMatcher{m}, nil
+}
+
+// MatchesOrParentMatches calls the upstream reference function.
+func (v *VerifMatcher) MatchesOrParentMatches(file string) (bool, error) {
+	return v.m.MatchesOrParentMatches(file)
+}
+
+// MatchesForMutagen calls the Mutagen variant; the status is returned as its
+// numeric value (0 nominal, 1 matched, 2 inverted).
+func (v *VerifMatcher) MatchesForMutagen(path string, directory bool) (uint8, bool) {
+	status, continueTraversal := v.m.MatchesForMutagen(path, directory)
+	return uint8(status), continueTraversal
+}
+
+// Exclusions calls PatternMatcher.Exclusions.
+func (v *VerifMatcher) Exclusions() bool {
+	return v.m.Exclusions()
+}
+
+// Patterns returns, for every pattern the matcher holds, its cleaned text
+// (Pattern.String) and whether it is an exclusion ("!") pattern.
+func (v *VerifMatcher) Patterns() (texts []string, exclusions []bool) {
+	for _, p := range v.m.Patterns() {
+		texts = append(texts, p.String())
+		exclusions = append(exclusions, p.Exclusion())
+	}
+	return
+}
